@@ -19,6 +19,8 @@ pub mod c14;
 #[cfg(feature = "nightly")]
 pub mod c15;
 #[cfg(feature = "nightly")]
+pub mod c19;
+#[cfg(feature = "nightly")]
 pub mod osview;
 #[cfg(feature = "nightly")]
 pub mod prot;
@@ -55,6 +57,8 @@ pub fn dispatch(name: &str, cx: &mut Ctx) -> bool {
         "c14" => c14::run(cx),
         #[cfg(feature = "nightly")]
         "c15" => c15::run(cx),
+        #[cfg(feature = "nightly")]
+        "c19" => c19::run(cx),
         #[cfg(feature = "sodium")]
         "c05" => c05::run(cx),
         #[cfg(feature = "sodium")]
